@@ -938,6 +938,18 @@ impl<'p> World<'p> {
                 return;
             }
         }
+        if wk == WrapKind::Pw && matches!(f, 2 | 4) {
+            // the reference can follow parallelism != 1 only for the salts of its known-answer table
+            if let Some(c) = pw_cost(text) {
+                if c.para != 1 {
+                    let salt = faults::split_paserk(text).map(|(_, d)| d.get(..16).map(|x| x.to_vec()).unwrap_or_default()).unwrap_or_default();
+                    if !crate::fixtures::argon_rows().iter().any(|r| r.salt == salt) {
+                        self.stats.bump("crosscheck:no-reference-for-this-parallel-argon2id");
+                        return;
+                    }
+                }
+            }
+        }
         match refimpl::unwrap(f, wk, krec.kind, text, unwrap_secret, iv.as_ref()) {
             Some(k) if k == key_raw => self.stats.bump("crosscheck:reference-unwrapped-blob"),
             Some(_) => {
@@ -1132,6 +1144,9 @@ impl<'p> World<'p> {
                 self.stats.bump("deliver:unauthentic");
                 match &r {
                     Out::Ok((c, _)) => {
+                        if dec_calls != 0 || val_calls != 0 {
+                            self.violate("C12", "decoder-invoked-on-unauthenticated", bk, &op, &fclass, format!("a token that was never sealed in this form reached the payload decoder ({dec_calls} calls) and validator ({val_calls} calls) and was accepted"));
+                        }
                         self.violate(
                             "C02",
                             "forgery-accepted",
